@@ -25,6 +25,8 @@ func Main(args []string) int {
 		return cmdVerify(args[1:])
 	case "check":
 		return cmdCheck(args[1:])
+	case "expect":
+		return cmdExpect(args[1:])
 	}
 	fmt.Fprintln(os.Stderr, "unknown command", args[0])
 	return 2
@@ -135,4 +137,3 @@ func cmdVerify(args []string) int {
 	return rc
 }
 
-func cmdCheck(args []string) int { return 2 }
